@@ -431,10 +431,23 @@ theorem map_zip_self {α β γ} (l : List α) (g : α → β) (f : β × α → 
   | nil => rfl
   | cons a as ih => simp [ih]
 
+/-- a row that is only a sign (rejected by the code) -/
+def signOnly (r : Bytes) : Bool := (isNegRow r || isPosRow r) && r.length == 1
+
 theorem strToInt_rows (rows : List Bytes) (hne : ∀ r ∈ rows, r ≠ [])
+    (hso : ∀ r ∈ rows, signOnly r = false)
     (hok : ∀ r ∈ rows, (omap digitVal (stripSign r)).isSome) :
     strToInt rows = some (rows.map rowValue) := by
   unfold strToInt
+  have hany : rows.any (fun r => (isNegRow r || isPosRow r) && r.length == 1) = false := by
+    apply Bool.eq_false_iff.mpr
+    intro hc
+    obtain ⟨r, hr, hrt⟩ := List.any_eq_true.mp hc
+    have := hso r hr
+    unfold signOnly at this
+    rw [this] at hrt
+    exact Bool.false_ne_true hrt
+  simp only [hany, Bool.false_eq_true, if_false]
   have hsome : (omap (fun r => omap digitVal (stripSign r)) rows).isSome := by
     rw [omap_isSome_iff]; exact hok
   obtain ⟨drows, hd⟩ := Option.isSome_iff_exists.mp hsome
@@ -487,7 +500,7 @@ theorem ofDigits_zero_cons (ds : List Nat) : ofDigits (0 :: ds) = ofDigits ds :=
 
 /-- a row in the grammar is accepted by the code and evaluated to the value of the text -/
 theorem row_parse (r : Bytes) (v : Int) (h : specParse r = some v) :
-    r ≠ [] ∧ (omap digitVal (stripSign r)).isSome ∧ rowValue r = wrap64 v := by
+    r ≠ [] ∧ (omap digitVal (stripSign r)).isSome ∧ rowValue r = wrap64 v ∧ signOnly r = false := by
   unfold specParse at h
   split at h
   · -- '-' :: t
@@ -497,26 +510,32 @@ theorem row_parse (r : Bytes) (v : Int) (h : specParse r = some v) :
     | some u =>
       simp only [hu, Option.some.injEq] at h
       subst h
-      obtain ⟨_, hall, rfl⟩ := specNat_some t u hu
+      obtain ⟨htne, hall, rfl⟩ := specNat_some t u hu
       have hs : stripSign (45 :: t) = 48 :: t := by simp [stripSign, isNegRow]
       have hd : omap digitVal (48 :: t) = some (0 :: t.map (· - 48)) :=
         omap_cons_some _ _ _ _ _ (by simp [digitVal]) (omap_digitVal t hall)
-      refine ⟨by simp, by rw [hs, hd]; rfl, ?_⟩
-      simp only [rowValue, rowDigits, hs, hd, Option.getD_some, rowSum_eq, ofDigits_zero_cons]
-      simp [isNegRow]
+      refine ⟨by simp, by rw [hs, hd]; rfl, ?_, ?_⟩
+      · simp only [rowValue, rowDigits, hs, hd, Option.getD_some, rowSum_eq, ofDigits_zero_cons]
+        simp [isNegRow]
+      · cases t with
+        | nil => exact absurd rfl htne
+        | cons _ _ => simp [signOnly]
   · rename_i t
     cases hu : specNat t with
     | none => simp [hu] at h
     | some u =>
       simp only [hu, Option.some.injEq] at h
       subst h
-      obtain ⟨_, hall, rfl⟩ := specNat_some t u hu
+      obtain ⟨htne, hall, rfl⟩ := specNat_some t u hu
       have hs : stripSign (43 :: t) = 48 :: t := by simp [stripSign, isNegRow, isPosRow]
       have hd : omap digitVal (48 :: t) = some (0 :: t.map (· - 48)) :=
         omap_cons_some _ _ _ _ _ (by simp [digitVal]) (omap_digitVal t hall)
-      refine ⟨by simp, by rw [hs, hd]; rfl, ?_⟩
-      simp only [rowValue, rowDigits, hs, hd, Option.getD_some, rowSum_eq, ofDigits_zero_cons]
-      simp [isNegRow]
+      refine ⟨by simp, by rw [hs, hd]; rfl, ?_, ?_⟩
+      · simp only [rowValue, rowDigits, hs, hd, Option.getD_some, rowSum_eq, ofDigits_zero_cons]
+        simp [isNegRow]
+      · cases t with
+        | nil => exact absurd rfl htne
+        | cons _ _ => simp [signOnly]
   · cases hu : specNat r with
     | none => simp [hu] at h
     | some u =>
@@ -526,7 +545,7 @@ theorem row_parse (r : Bytes) (v : Int) (h : specParse r = some v) :
       obtain ⟨hn, hp⟩ := head_digit r hne hall
       have hs : stripSign r = r := by simp [stripSign, hn, hp]
       have hd := omap_digitVal r hall
-      refine ⟨hne, by rw [hs, hd]; rfl, ?_⟩
+      refine ⟨hne, by rw [hs, hd]; rfl, ?_, by simp [signOnly, hn, hp]⟩
       simp only [rowValue, rowDigits, hs, hd, Option.getD_some, rowSum_eq, hn]
       simp
 
@@ -540,13 +559,15 @@ theorem parse_int (rows : List Bytes) (vs : List Int) (h : omap specParse rows =
     (fun r hr' => by
       obtain ⟨v, hv⟩ := Option.isSome_iff_exists.mp (hall r hr'); exact (row_parse r v hv).1)
     (fun r hr' => by
+      obtain ⟨v, hv⟩ := Option.isSome_iff_exists.mp (hall r hr'); exact (row_parse r v hv).2.2.2)
+    (fun r hr' => by
       obtain ⟨v, hv⟩ := Option.isSome_iff_exists.mp (hall r hr'); exact (row_parse r v hv).2.1)]
   rw [hvs]
   congr 1
   apply List.map_congr_left
   intro r hr'
   obtain ⟨v, hv⟩ := Option.isSome_iff_exists.mp (hall r hr')
-  rw [(row_parse r v hv).2.2, hv, Option.getD_some]
+  rw [(row_parse r v hv).2.2.1, hv, Option.getD_some]
   apply wrap64_id
   apply hr
   rw [hvs]
@@ -659,6 +680,7 @@ theorem intsToStrings_single (n : Int) : intsToStrings [n] = [fmtOne n] := by
 a batch is the concatenation of the one-row results (formatting: every batch; parsing: every batch
 whose rows are all accepted) -/
 theorem batch_independent (ns : List Int) (rows : List Bytes) (hne : ∀ r ∈ rows, r ≠ [])
+    (hso : ∀ r ∈ rows, signOnly r = false)
     (hok : ∀ r ∈ rows, (omap digitVal (stripSign r)).isSome) :
     intsToStrings ns = (ns.map (fun n => intsToStrings [n])).flatten ∧
     strToInt rows = omap (fun r => (strToInt [r]).bind List.head?) rows := by
@@ -667,15 +689,15 @@ theorem batch_independent (ns : List Int) (rows : List Bytes) (hne : ∀ r ∈ r
     induction ns with
     | nil => rfl
     | cons n r ih => simp [intsToStrings_single, ih]
-  · rw [strToInt_rows rows hne hok]
+  · rw [strToInt_rows rows hne hso hok]
     symm
     apply omap_some_map
     intro r hr
-    rw [strToInt_rows [r] (by simpa using hne r hr) (by simpa using hok r hr)]
+    rw [strToInt_rows [r] (by simpa using hne r hr) (by simpa using hso r hr) (by simpa using hok r hr)]
     rfl
 
 example : ∀ r ∈ ["-12".toList.map Char.toNat, "007".toList.map Char.toNat],
-    r ≠ [] ∧ (omap digitVal (stripSign r)).isSome := by decide
+    r ≠ [] ∧ signOnly r = false ∧ (omap digitVal (stripSign r)).isSome := by decide
 
 /-! ### int_lists -/
 
@@ -812,6 +834,291 @@ theorem int_lists_roundtrip (r : List Int) (hne : r ≠ []) (h : ∀ n ∈ r, in
   exact parse_int _ r (omap_map_some _ _ _ (fun n _ => specParse_decimal n)) h
 
 example : splitParse ("1,-22,333".toList.map Char.toNat) 44 = some [1, -22, 333] := by decide
+
+
+
+/-! ### float parser: digit placement, dot and exponent logic over exact decimals -/
+
+theorem cumsum_replicate_shift (k : Nat) (x : Int) :
+    cumsumFrom ((k : Int) + x) (List.replicate k (-1)) = (countdown k).map (· + x) := by
+  induction k with
+  | zero => rfl
+  | succ n ih =>
+    simp only [List.replicate_succ, cumsumFrom, countdown, List.map_cons]
+    have e : ((n + 1 : Nat) : Int) + x + -1 = (n : Int) + x := by omega
+    rw [e, ih]
+
+theorem sum_replicate_neg (k : Nat) : (List.replicate k (-1 : Int)).sum = -(k : Int) := by
+  induction k with
+  | zero => rfl
+  | succ n ih => simp [List.replicate_succ, ih]; omega
+
+theorem set_replicate (c n : Nat) :
+    (List.replicate (c + 1 + n) (-1 : Int)).set c 0 = List.replicate c (-1) ++ 0 :: List.replicate n (-1) := by
+  induction c with
+  | zero =>
+    rw [show 0 + 1 + n = n + 1 by omega, List.replicate_succ]
+    simp
+  | succ k ih =>
+    rw [show k + 1 + 1 + n = (k + 1 + n) + 1 by omega, List.replicate_succ, List.set_cons_succ, ih]
+    simp [List.replicate_succ]
+
+/-- the power row with a dot at column `c` and `n` digits after it -/
+theorem powerRowDot_some (c n : Nat) :
+    powerRowDot (c + 1 + n) (some c) = (countdown c).map (· + (n : Int)) ++ (n : Int) :: countdown n := by
+  unfold powerRowDot
+  simp only [Option.isSome_some, if_true]
+  rw [set_replicate]
+  cases c with
+  | zero =>
+    simp only [List.replicate_zero, List.nil_append, List.modifyHead_cons, cumsumFrom, countdown, List.map_nil]
+    have e : (0 : Int) + (0 + (((0 + 1 + n : Nat) : Int) - 1)) = (n : Int) := by omega
+    rw [e]
+    have := cumsum_replicate_shift n 0
+    simp only [Int.add_zero] at this
+    rw [this]; simp
+  | succ k =>
+    simp only [List.replicate_succ, List.cons_append, List.modifyHead_cons, cumsumFrom, countdown, List.map_cons]
+    have e : (0 : Int) + (-1 + (((k + 1 + 1 + n : Nat) : Int) - 1)) = (k : Int) + (n : Int) := by omega
+    rw [e, cumsum_append, cumsum_replicate_shift, sum_replicate_neg]
+    simp only [cumsumFrom]
+    have e2 : (k : Int) + (n : Int) + -(k : Int) + 0 = (n : Int) := by omega
+    rw [e2]
+    have := cumsum_replicate_shift n 0
+    simp only [Int.add_zero] at this
+    rw [this]; simp
+
+/-- the power row without a dot -/
+theorem powerRowDot_none (L : Nat) (h : 0 < L) : powerRowDot L none = countdown L := by
+  unfold powerRowDot
+  obtain ⟨k, rfl⟩ : ∃ k, L = k + 1 := ⟨L - 1, by omega⟩
+  simp only [Option.isSome_none, Bool.false_eq_true, if_false, List.replicate_succ, List.modifyHead_cons,
+    cumsumFrom, countdown]
+  have e : (0 : Int) + (-1 + (((k + 1 : Nat) : Int) - 0)) = (k : Int) + 0 := by omega
+  rw [e, cumsum_replicate_shift]; simp
+
+theorem sum_shifted (ds : List Nat) (n : Nat) :
+    ((ds.zip ((countdown ds.length).map (· + (n : Int)))).map g).sum = rowSum ds * 10 ^ n := by
+  induction ds with
+  | nil => simp [rowSum]
+  | cons d r ih =>
+    simp only [List.length_cons, countdown, List.map_cons, List.zip_cons_cons, List.sum_cons, ih, rowSum_cons]
+    have : g (d, (r.length : Int) + (n : Int)) = (d : Int) * 10 ^ r.length * 10 ^ n := by
+      simp only [g]
+      have : ((r.length : Int) + (n : Int)).toNat = r.length + n := by omega
+      rw [this, Int.pow_add, Int.mul_assoc]
+    rw [this, Int.add_mul]
+
+/-- digit placement with a dot: `I.F` denotes `(I·10^|F| + F) / 10^|F|` -/
+theorem place_dot (dI dF : List Nat) :
+    (((dI ++ 0 :: dF).zip (powerRowDot (dI.length + 1 + dF.length) (some dI.length))).map g).sum
+      = ((ofDigits dI * 10 ^ dF.length + ofDigits dF : Nat) : Int) := by
+  rw [powerRowDot_some, List.zip_append (by simp [length_countdown]), List.map_append, List.sum_append,
+    sum_shifted, List.zip_cons_cons, List.map_cons, List.sum_cons]
+  have h0 : g (0, (dF.length : Int)) = 0 := by simp [g]
+  have hF : ((dF.zip (countdown dF.length)).map g).sum = rowSum dF := rfl
+  rw [h0, hF, rowSum_eq, rowSum_eq]
+  push_cast
+  omega
+
+
+
+theorem not_mem_digits (b : Nat) (s : Bytes) (h : allDigits s = true) (hb : b < 48 ∨ 57 < b) : b ∉ s := by
+  intro hm
+  unfold allDigits at h
+  have := (List.all_eq_true.mp h) b hm
+  simp only [Bool.and_eq_true, decide_eq_true_eq] at this
+  omega
+
+theorem idxOf_append_self (b : Nat) (I F : Bytes) (h : b ∉ I) : (I ++ b :: F).idxOf b = I.length := by
+  induction I with
+  | nil => simp
+  | cons c cs ih =>
+    have hc : (c == b) = false := by
+      apply Bool.eq_false_iff.mpr; intro hc; simp at hc; exact h (by simp [hc])
+    have := ih (fun hm => h (by simp [hm]))
+    simp [List.idxOf_cons, hc, this]
+
+theorem findByte_append (b : Nat) (I F : Bytes) (h : b ∉ I) : findByte b (I ++ b :: F) = some I.length := by
+  unfold findByte
+  simp only [idxOf_append_self b I F h]
+  simp
+
+theorem findByte_none (b : Nat) (s : Bytes) (h : b ∉ s) : findByte b s = none := by
+  unfold findByte
+  have : s.idxOf b = s.length := List.idxOf_eq_length h
+  simp [this]
+
+theorem set_append_self (I F : Bytes) (x y : Nat) : (I ++ x :: F).set I.length y = I ++ y :: F := by
+  induction I with
+  | nil => simp
+  | cons c cs ih => simp [ih]
+
+theorem omap_digits_dot (I F : Bytes) (hI : allDigits I = true) (hF : allDigits F = true) :
+    omap digitVal (I ++ 48 :: F) = some (I.map (· - 48) ++ 0 :: F.map (· - 48)) := by
+  rw [omap_append, omap_digitVal I hI]
+  have : omap digitVal (48 :: F) = some (0 :: F.map (· - 48)) :=
+    omap_cons_some _ _ _ _ _ (by simp [digitVal]) (omap_digitVal F hF)
+  rw [this]
+
+theorem count_digits (b : Nat) (s : Bytes) (h : allDigits s = true) (hb : b < 48 ∨ 57 < b) : s.count b = 0 :=
+  List.count_eq_zero.mpr (not_mem_digits b s h hb)
+
+/-- `_decimal_str_to_float` on `[±]I.F` -/
+theorem decimal_core_dot (row I' F : Bytes) (hI : allDigits I' = true) (hF : allDigits F = true)
+    (hlen : row.length = I'.length + 1 + F.length)
+    (hcount : row.count 46 = 1)
+    (hdig : 1 ≤ row.length - 1 - (if isNegRow row then 1 else 0) - (if isPosRow row then 1 else 0))
+    (hr1 : (if isNegRow row || isPosRow row then row.set 0 48 else row) = I' ++ 46 :: F) :
+    decimalRow row = some ⟨(if isNegRow row then -1 else 1) *
+      ((ofDigits (I'.map (· - 48)) * 10 ^ F.length + ofDigits (F.map (· - 48)) : Nat) : Int), -(F.length : Int)⟩ := by
+  unfold decimalRow
+  have hchk : ¬ (row.count 46 > 1 ∨ row.length - row.count 46 - (if isNegRow row then 1 else 0)
+      - (if isPosRow row then 1 else 0) < 1) := by
+    rw [hcount]; omega
+  simp only [hchk, if_false, hr1]
+  rw [findByte_append 46 I' F (not_mem_digits 46 I' hI (by omega))]
+  simp only [set_append_self, omap_digits_dot I' F hI hF, hlen]
+  have := place_dot (I'.map (· - 48)) (F.map (· - 48))
+  simp only [List.length_map] at this
+  have hg : (fun (x : Nat × Int) => (x.1 : Int) * 10 ^ x.2.toNat) = g := rfl
+  simp only [hg, this]
+  congr 2
+  omega
+
+/-- `_decimal_str_to_float` on `[±]I` (no dot) -/
+theorem decimal_core_nodot (row I' : Bytes) (hI : allDigits I' = true) (hne : I' ≠ [])
+    (hlen : row.length = I'.length)
+    (hcount : row.count 46 = 0)
+    (hdig : 1 ≤ row.length - (if isNegRow row then 1 else 0) - (if isPosRow row then 1 else 0))
+    (hr1 : (if isNegRow row || isPosRow row then row.set 0 48 else row) = I') :
+    decimalRow row = some ⟨(if isNegRow row then -1 else 1) * (ofDigits (I'.map (· - 48)) : Int), 0⟩ := by
+  unfold decimalRow
+  have hchk : ¬ (row.count 46 > 1 ∨ row.length - row.count 46 - (if isNegRow row then 1 else 0)
+      - (if isPosRow row then 1 else 0) < 1) := by
+    rw [hcount]; omega
+  simp only [hchk, if_false, hr1]
+  rw [findByte_none 46 I' (not_mem_digits 46 I' hI (by omega))]
+  simp only [omap_digitVal I' hI, hlen]
+  have hpos : 0 < I'.length := by cases I' with | nil => exact absurd rfl hne | cons _ _ => simp
+  rw [powerRowDot_none _ hpos]
+  have hg : (fun (x : Nat × Int) => (x.1 : Int) * 10 ^ x.2.toNat) = g := rfl
+  have hs : (((I'.map (· - 48)).zip (countdown I'.length)).map g).sum = rowSum (I'.map (· - 48)) := by
+    unfold rowSum; rw [List.length_map]
+  simp only [hg, hs, rowSum_eq]
+  rfl
+
+/-- the optional sign of a float text -/
+inductive Sign where
+  | none | minus | plus
+deriving DecidableEq
+
+def Sign.bytes : Sign → Bytes
+  | .none => []
+  | .minus => [45]
+  | .plus => [43]
+
+def Sign.factor : Sign → Int
+  | .minus => -1
+  | _ => 1
+
+theorem head_not_sign (I F : Bytes) (hI : allDigits I = true) :
+    isNegRow (I ++ 46 :: F) = false ∧ isPosRow (I ++ 46 :: F) = false := by
+  cases I with
+  | nil => simp [isNegRow, isPosRow]
+  | cons c cs =>
+    unfold allDigits at hI
+    simp only [List.all_cons, Bool.and_eq_true, decide_eq_true_eq] at hI
+    simp only [isNegRow, isPosRow, List.cons_append, List.head?_cons]
+    constructor
+    · apply Bool.eq_false_iff.mpr; intro hc; simp at hc; omega
+    · apply Bool.eq_false_iff.mpr; intro hc; simp at hc; omega
+
+theorem count_dot (I F : Bytes) (hI : allDigits I = true) (hF : allDigits F = true) :
+    (I ++ 46 :: F).count 46 = 1 := by
+  rw [List.count_append, List.count_cons_self, count_digits 46 I hI (by omega), count_digits 46 F hF (by omega)]
+
+/-- **C18.float_logic_partial** (decimal texts): for every `[±]I.F` (digit strings of any length,
+at least one digit in total) the float parser's validity check, sign stripping, dot handling, digit
+placement through the power table and final scaling denote exactly `±(I·10^|F| + F)·10^(−|F|)`;
+for every `[±]I` exactly `±I`. (Exact decimal `m·10^e`; the IEEE rounding of the floating-point
+operations is not modelled — that part of the clause is only corresponded.) -/
+theorem float_logic_partial (sg : Sign) (I F : Bytes) (hI : allDigits I = true) (hF : allDigits F = true) :
+    (I ++ F ≠ [] → decimalRow (sg.bytes ++ I ++ 46 :: F) = some ⟨sg.factor *
+      ((ofDigits (I.map (· - 48)) * 10 ^ F.length + ofDigits (F.map (· - 48)) : Nat) : Int), -(F.length : Int)⟩) ∧
+    (I ≠ [] → decimalRow (sg.bytes ++ I) = some ⟨sg.factor * (ofDigits (I.map (· - 48)) : Int), 0⟩) := by
+  have hI' : allDigits (48 :: I) = true := by
+    unfold allDigits at hI ⊢; simp [hI]
+  have hlenIF : I ++ F ≠ [] → 1 ≤ I.length + F.length := by
+    intro h
+    cases I with
+    | nil => cases F with | nil => exact absurd rfl h | cons _ _ => simp
+    | cons _ _ => simp; omega
+  have hlenI : I ≠ [] → 1 ≤ I.length := by
+    intro h; cases I with | nil => exact absurd rfl h | cons _ _ => simp
+  have hc := count_dot I F hI hF
+  have hc0 := count_digits 46 I hI (by omega)
+  cases sg with
+  | minus =>
+    constructor
+    · intro hne
+      have := decimal_core_dot (45 :: (I ++ 46 :: F)) (48 :: I) F hI' hF (by simp; omega)
+        (by rw [List.count_cons]; simp [hc]) (by have := hlenIF hne; simp [isNegRow, isPosRow]; omega)
+        (by simp [isNegRow])
+      simpa [Sign.bytes, Sign.factor, isNegRow, ofDigits_zero_cons] using this
+    · intro hne
+      have := decimal_core_nodot (45 :: I) (48 :: I) hI' (by simp) (by simp)
+        (by rw [List.count_cons]; simp [hc0]) (by have := hlenI hne; simp [isNegRow, isPosRow]; omega)
+        (by simp [isNegRow])
+      simpa [Sign.bytes, Sign.factor, isNegRow, ofDigits_zero_cons] using this
+  | plus =>
+    constructor
+    · intro hne
+      have := decimal_core_dot (43 :: (I ++ 46 :: F)) (48 :: I) F hI' hF (by simp; omega)
+        (by rw [List.count_cons]; simp [hc]) (by have := hlenIF hne; simp [isNegRow, isPosRow]; omega)
+        (by simp [isNegRow, isPosRow])
+      simpa [Sign.bytes, Sign.factor, isNegRow, ofDigits_zero_cons] using this
+    · intro hne
+      have := decimal_core_nodot (43 :: I) (48 :: I) hI' (by simp) (by simp)
+        (by rw [List.count_cons]; simp [hc0]) (by have := hlenI hne; simp [isNegRow, isPosRow]; omega)
+        (by simp [isNegRow, isPosRow])
+      simpa [Sign.bytes, Sign.factor, isNegRow, ofDigits_zero_cons] using this
+  | none =>
+    constructor
+    · intro hne
+      obtain ⟨hn, hp⟩ := head_not_sign I F hI
+      have := decimal_core_dot (I ++ 46 :: F) I F hI hF (by simp; omega) hc
+        (by have := hlenIF hne; simp [hn, hp]; omega) (by simp [hn, hp])
+      simpa [Sign.bytes, Sign.factor, hn] using this
+    · intro hne
+      obtain ⟨hn, hp⟩ := head_digit I hne hI
+      have := decimal_core_nodot I I hI hne rfl hc0
+        (by have := hlenI hne; simp [hn, hp]; omega) (by simp [hn, hp])
+      simpa [Sign.bytes, Sign.factor, hn] using this
+
+example : decimalRow ("-12.345".toList.map Char.toNat) = some ⟨-12345, -3⟩ := by decide
+example : decimalRow ("+.5".toList.map Char.toNat) = some ⟨5, -1⟩ := by decide
+example : decimalRow ("-.".toList.map Char.toNat) = none := by decide
+
+/-- **C18.float_logic_partial** (scientific texts): `M e X` — mantissa text `M` (anything the decimal
+parser evaluates to `m·10^e`, not containing `'e'`), exponent text `X` a decimal integer with
+optional sign — denotes exactly `m·10^(e+X)` -/
+theorem float_logic_sci_partial (mant ex : Bytes) (d : Dec) (x : Int) (hm : 101 ∉ mant)
+    (hd : decimalRow mant = some d) (hx : specParse ex = some x) (hr : int64 x) :
+    strToFloatRow (mant ++ 101 :: ex) = some ⟨d.m, d.e + x⟩ := by
+  unfold strToFloatRow
+  have hc : (mant ++ 101 :: ex).contains 101 = true := by simp
+  simp only [hc, if_true]
+  unfold scientificRow
+  rw [findByte_append 101 mant ex hm]
+  simp only [List.take_left]
+  have : (mant ++ 101 :: ex).drop (mant.length + 1) = ex := by
+    rw [← List.drop_drop, List.drop_left]; rfl
+  rw [this, hd]
+  have hp := parse_int [ex] [x] (by simp [omap, hx]) (by simpa using hr)
+  rw [hp]
+
+example : strToFloatRow ("-1.25e-7".toList.map Char.toNat) = some ⟨-125, -9⟩ := by decide
 
 
 /-! ### the rule shipped before the repair is refuted (concrete witnesses, replayed on the code) -/
